@@ -312,12 +312,18 @@ def extra_checks(rep, pid, ledger, known):
                 if isinstance(n, (ast.Name, ast.Attribute)):
                     used.add(ast.unparse(n))
         bad_used = sorted(u for u in used if u in NONDET or u.split(".")[0] in {"time", "random", "secrets", "os", "datetime", "socket", "platform"} or u.endswith((".uuid4", ".uuid1")))
-        ok = not bad and not bad_used
-        why = f"ambient inputs reachable: imports {bad}, names {bad_used}"
+        from pyvc.model import module_state_mutations
+
+        muts = []
+        for qual in ("KeyStore.__init__", "KeyStore.from_text", "KeyStore.key", "KeyStore.id"):
+            node, _ = find_function(rep.repo, FILE, qual)
+            muts += module_state_mutations(rep.repo, FILE, node)
+        ok = not bad and not bad_used and not muts
+        why = f"ambient inputs reachable: imports {bad}, names {bad_used}; module-level state mutated (the derived key may depend on earlier keystores): {muts}"
     except Unsupported as e:
         rep.unsupported.append(f"{name}: unsupported({e})")
         return
-    rep.functions.append({"function": f"{FILE}:KeyStore.__init__, KeyStore.from_text", "contract": "reads only its argument (no clock / randomness / environment / host identity)", "props": ["C16"]})
+    rep.functions.append({"function": f"{FILE}:KeyStore.__init__, KeyStore.from_text", "contract": "reads only its argument (no clock / randomness / environment / host identity) and keeps no module-level state between calls", "props": ["C16"]})
     rep.obligations[name] = {"verdict": "discharged" if ok else "undischarged", "atoms": 1, "ms": 0, "backends": {"set-inclusion"}, "stages": set(), "line": 0, "props": ["C16"]}
     if not ok:
         p = driver.write_replay(pid, name, {"property": pid, "obligation": name, "verifier_output": why})
